@@ -9,6 +9,9 @@ CTXS_DEFAULT = [('v7-pmsa-r', 'off'), ('v6-pmsa-sec', 'off'), ('v7-vmsa-sec', 'o
                 ('v7-vmsa-virt', 'off')]
 
 
+# instructions that name modes / banks / saved state: control-register settings matter most here, and they get a larger share
+SYSTEM_SEMS = ('srs', 'rfe', 'cps', 'msr_sys', 'mrs', 'subs_pc_lr', 'subs_pc_lr_thumb', 'eret', 'ldm_user', 'stm_user', 'ldm_eret', 'smc',
+               'svc', 'wfe', 'wfi', 'cp')
 CODE_ADDRS_ARM = [0x10004, 0x10008, 0x1000C, 0x0, 0x4, 0x8, 0xFFFFF000, 0xFFFFFFF0, 0xFFFFFFF8, 0xFFFFFFFC, 0x7FF8, 0x11FF8]
 CODE_ADDRS_THUMB = [0x10002, 0x10006, 0x1000A, 0x10004, 0x0, 0x2, 0x4, 0x6, 0xFFFFF002, 0xFFFFFFF0, 0xFFFFFFF6, 0xFFFFFFFA,
                     0xFFFFFFFC, 0xFFFFFFFE, 0x7FFA, 0x11FFA]
@@ -91,7 +94,7 @@ def run_rows(pid, spec, prefixes, ctxs=CTXS_DEFAULT, regs_fn=None, prep_kw=None,
             if ri % spec['of'] != spec['shard']:
                 continue
             ls.bump('rows_visited')
-            for j in range(spec['per_row']):
+            for j in range(spec['per_row'] * (3 if (row.sem or '').split(':')[0] in SYSTEM_SEMS else 1)):
                 fx = fixed_fn(row, rng) if fixed_fn else None
                 if fixed_fn and fx is None:
                     break                                  # this row cannot take the pinned operand
@@ -162,7 +165,7 @@ def run_rows(pid, spec, prefixes, ctxs=CTXS_DEFAULT, regs_fn=None, prep_kw=None,
             kw2 = dict(kw, mode=mode, itpos=itpos, ns=ns)
             desc = solve_address(ctx, rng, desc, kind, w, kw2)
             ls.bump('addresses_solved_' + desc.get('address_solved', 'not'))
-        if rng.random() < 0.25:
+        if rng.random() < (0.6 if (row.sem or '').split(':')[0] in SYSTEM_SEMS else 0.3):
             control_noise(ctx, rng, desc)
         if mode == 'mon' and rng.random() < 0.45:
             ctx.cpu.registers.scr.ns = 1      # Monitor mode with SCR.NS = 1 (as set before a return to Non-secure state)
@@ -204,7 +207,7 @@ def control_noise(ctx, rng, desc):
         r.scr.aw = rng.randrange(2)
         r.scr.fw = rng.randrange(2)
         r.scr.ea = rng.randrange(2)
-        if rng.random() < 0.4 and not (desc.get('ns') == 1):
+        if rng.random() < 0.5 and not (desc.get('ns') == 1):
             r.nsacr.value |= 1 << 19              # NSACR.RFR: restricts FIQ mode for Non-secure state only
     if cfg['have_virt_ext']:
         r.hvbar = rng.choice([0, 0x60, 0xFFFFFFE0, 0x5000])
